@@ -46,6 +46,16 @@ STATEMENTS = [
     "select a from int1.t where not b = ? or c = ?",
     "select sum(a) over (partition by ?, b order by c) from int1.t where d = ?",
     "select a from int1.t where b = ?",
+    # a placeholder on the LEFT of a comparison whose right side holds another one
+    "select a from int1.t where ? = b + ?",
+    "select a from int1.t where ? != f(?, c) and d = ?",
+    "select a from int1.t where ? <> case when b = ? then 1 else 2 end",
+    "select a from int1.t where ? = (select max(c) from int2.t2 where d = ?)",
+    "select a from int1.t where ? < b + ? and ? >= c - ?",
+    "select a from int1.t where not ? = b * ? or ? in (c, ?)",
+    "select a from int1.t where ? between ? and b + ?",
+    "select ? + ?, a from int1.t where ? like c",
+    "delete from int1.t where ? = b + ?",
 ]
 
 
